@@ -35,7 +35,7 @@ var DebugTable string
 
 // DecodeTuple decodes a tuple using column schema
 func DecodeTuple(tuple *HeapTupleData, columns []Column) map[string]interface{} {
-	if tuple == nil || len(tuple.Data) == 0 {
+	if tuple == nil || (len(tuple.Data) == 0 && len(columns) == 0) {
 		return nil
 	}
 
